@@ -3,6 +3,7 @@ package props
 import (
 	"context"
 	"encoding/json"
+	"errors"
 	"fmt"
 	"net/url"
 	"slices"
@@ -257,6 +258,115 @@ func (c *c14) delegation(ch *kernel.Chooser) string {
 	return desc
 }
 
+// concurrentAssertions: ONE verifier object built through the public API (as an application that keeps it in a field
+// does) checks several assertions at the same time; the seeded scheduler switches between them at the storage's key
+// lookup and inside the application's subject check. Every assertion must be judged as it would be on its own: the
+// key is looked up for the issuer that this assertion names.
+func (c *c14) concurrentAssertions(ch *kernel.Chooser) string {
+	w := c.w
+	now := time.Now()
+	// a second client with a registered key for the duration of the group
+	other := ch.Pick("web", "hyb")
+	oc := w.Store.Clients[other]
+	savedKey, hadKey := oc.Key, w.ClientKeys[other]
+	k := world.FixtureKey("rsa", 5)
+	k.KeyID = other + "-key-1"
+	pub := k.Public()
+	oc.Key = &pub
+	w.ClientKeys[other] = k
+	defer func() {
+		oc.Key = savedKey
+		if hadKey.Key == nil {
+			delete(w.ClientKeys, other)
+		} else {
+			w.ClientKeys[other] = hadKey
+		}
+	}()
+	parkers := map[int64]func(){}
+	v := op.NewJWTProfileVerifier(w.OP.Storage, w.Issuer, time.Hour, 0, op.SubjectCheck(func(r *oidc.JWTTokenRequest) error {
+		if f := parkers[r.ExpiresAt.AsTime().Unix()]; f != nil {
+			f()
+		}
+		if r.Issuer != r.Subject {
+			return errors.New("delegation is not allowed here")
+		}
+		return nil
+	}))
+	type asOp struct {
+		groupOp
+		iss, kind string
+		valid     bool
+		identity  string
+	}
+	kinds := []string{"valid-jwt", "valid-other", "forged-jwt-by-other", "forged-other-by-jwt", "valid-jwt", "valid-other"}
+	n := 2 + ch.Int(2)
+	var ops []*asOp
+	for i := 0; i < n; i++ {
+		kind := kinds[ch.Int(len(kinds))]
+		exp := now.Add(time.Hour + time.Duration(i+1)*time.Second) // unique: tells the subject check which task it runs in
+		var p presentation
+		a := &asOp{kind: kind}
+		switch kind {
+		case "valid-jwt":
+			p, a.iss, a.valid = mkAssertion(w, "jwt", "jwt", "jwt", "", []string{w.Issuer}, now, exp), "jwt", true
+		case "valid-other":
+			p, a.iss, a.valid = mkAssertion(w, other, other, other, "", []string{w.Issuer}, now, exp), other, true
+		case "forged-jwt-by-other": // names jwt, signed with the other client's key under that client's kid
+			p, a.iss = mkAssertion(w, "jwt", "jwt", other, "", []string{w.Issuer}, now, exp), "jwt"
+		default:
+			p, a.iss = mkAssertion(w, other, other, "jwt", "", []string{w.Issuer}, now, exp), other
+		}
+		a.label = kind
+		assertion := p.creds.Assertion
+		expKey := exp.Unix()
+		a.do = func(ctx context.Context) *world.Resp {
+			parkers[expKey] = func() { parkHere(ctx, "app.subject-check") }
+			req, err := op.VerifyJWTAssertion(ctx, assertion, v)
+			if err != nil {
+				return &world.Resp{Status: 400, Body: err.Error()}
+			}
+			a.identity = req.Issuer
+			return &world.Resp{Status: 200}
+		}
+		ops = append(ops, a)
+	}
+	gops := make([]*groupOp, len(ops))
+	for i, a := range ops {
+		gops[i] = &a.groupOp
+	}
+	trace := runGroup(w, c.o, fmt.Sprintf("assertions:%d", c.step), gops, 0)
+	c.o.Probe("concurrent-assertion-groups")
+	c.o.Trace = append(c.o.Trace, "  schedule: "+strings.Join(trace, ","))
+	var parts []string
+	for _, a := range ops {
+		if a.resp == nil {
+			parts = append(parts, a.kind+"=no-answer")
+			continue
+		}
+		parts = append(parts, fmt.Sprintf("%s[%d,%d]=%d", a.kind, a.inv, a.ret, a.resp.Status))
+	}
+	desc := fmt.Sprintf("one shared verifier, %d assertions at once (second keyed client %s): %s", n, other, strings.Join(parts, " "))
+	for _, a := range ops {
+		if a.resp == nil {
+			continue
+		}
+		accepted := a.resp.Status == 200
+		switch {
+		case accepted && !a.valid:
+			c.viol("invalid-assertion-accepted", "shared-verifier/"+a.kind, "%s: the assertion naming %q but signed with another client's key was accepted", desc, a.iss)
+		case accepted && a.identity != a.iss:
+			c.viol("identity", "shared-verifier/"+a.kind, "%s: identity %q for an assertion of %q", desc, a.identity, a.iss)
+		case !accepted && a.valid:
+			c.viol("valid-assertion-rejected", "shared-verifier/"+a.kind, "%s: a valid assertion of %q was rejected while others were being verified: %s", desc, a.iss, firstLine(a.resp.Body))
+		case accepted:
+			c.o.Probe("concurrent-assertions-accepted")
+		default:
+			c.o.Probe("concurrent-forgeries-rejected")
+		}
+	}
+	return desc
+}
+
 func surfaceName(i int) string {
 	return []string{"jwt-bearer", "introspect", "revoke", "device_authorization", "refresh"}[i]
 }
@@ -496,8 +606,10 @@ func RunC14(t *testing.T, spec kernel.Spec) *kernel.Outcome {
 				return c.delegation(ch)
 			case x < 14:
 				return c.helperInterop(ch)
-			case x < 19:
+			case x < 18:
 				return c.requestObject(ch)
+			case x < 19:
+				return c.concurrentAssertions(ch)
 			default:
 				d := time.Duration(ch.Range(1, 600)) * time.Second
 				w.Advance(d)
